@@ -159,6 +159,21 @@ def frag_length_set(mtu):
     return [F + P - 7, F + P - 6, F + P - 5, F + P - 1, F + P, F + P + 1, 2 * F, 2 * F + 1, 2 * F + P - 6, 2 * F + P - 5, 2 * F + P]
 
 
+def connected_or_flag(w, ch, mtu):
+    """the handshake messages are queued messages like any other: over a perfect link they leave the queue at every MTU"""
+    try:
+        w.run_until_connected()
+        return True
+    except RuntimeError as e:
+        if "honest handshake did not complete" not in str(e):
+            raise
+        c = w.clients[0].conn
+        queued = [(str(getattr(m, "type", "?")), len(getattr(m, "payload", b"") or b"")) for m in list(getattr(c, "outgoing_messages", []))[:3]] if c is not None else []
+        ch.flag("message-lost", "the handshake of an honest client over a perfect link does not complete at a supported MTU (a handshake message never leaves the queue, or is rejected)",
+                "mtu %d: client status %s, still queued %r, datagrams so far %r" % (mtu, c.status if c is not None else None, queued, [(d.src, len(d.data)) for d in w.all_sent[:6]]))
+        return False
+
+
 def stall_scenario(params, ch):
     """retry-mode messages first sent on consecutive send opportunities, acks withheld, then the owner
     stalls (one long frame): everything due for resend meets in ONE packet build"""
@@ -168,7 +183,8 @@ def stall_scenario(params, ch):
     sm = SizeMonitor(mtu)
     w = World(chooser=ch, monitors=[mon, sm], mtu=mtu, dt=0.02, server_send=("thread" if path == "server-thread" else "twisted"))
     try:
-        w.run_until_connected()
+        if not connected_or_flag(w, ch, mtu):
+            return
         w.run(2)
         w.start_blackout("s2c" if sender == "c" else "c2s", 40)   # acks are late
         queued = []
@@ -239,7 +255,8 @@ def scenario(params, ch):
     sm = SizeMonitor(mtu)
     w = World(chooser=ch, monitors=[mon, sm], mtu=mtu, server_send=("thread" if path == "server-thread" else "twisted"))
     try:
-        w.run_until_connected()
+        if not connected_or_flag(w, ch, mtu):
+            return
         w.run(2)
         base = len(w.all_sent)
         queued = []
